@@ -41,6 +41,7 @@ type World struct {
 	concrete []types.Type
 
 	ImmutableViolations []string
+	PureUnverified      []string
 	indexByContainer    bool
 	constGlobals        map[*ssa.Global]*ssa.Const
 	parametric          map[*ssa.Function]bool
